@@ -1,10 +1,151 @@
-(* C15 -- lemmas about the schema-level DataFrame model. *)
+(* C15 -- basic lemmas: result monad, well-formedness of frames, schema binding, name lookup. *)
 From Coq Require Import String ZArith NArith List Bool Lia.
 Require Import PV.Base.Val PV.Model.Schema.
 Import ListNotations.
 Open Scope Z_scope.
 Close Scope string_scope.
 
+
+(* ---------- generic helpers ---------- *)
+Lemma bind_ok {A B} (m : res A) (k : A -> res B) b :
+  bind m k = Ok b -> exists a, m = Ok a /\ k a = Ok b.
+Proof. destruct m as [a|e]; simpl; intros H; [eauto | discriminate]. Qed.
+
+Tactic Notation "inv_bind" hyp(H) "as" ident(a) ident(Ha) :=
+  apply bind_ok in H; destruct H as [a [Ha H]].
+
+Lemma mapM_Forall2 {A B} (f : A -> res B) l r :
+  mapM f l = Ok r -> Forall2 (fun x y => f x = Ok y) l r.
+Proof.
+  revert r; induction l as [|x l IH]; simpl; intros r H.
+  - inversion H; constructor.
+  - inv_bind H as y Hy. inv_bind H as ys Hys. inversion H; subst. constructor; auto.
+Qed.
+
+Lemma mapM_length {A B} (f : A -> res B) l r : mapM f l = Ok r -> length r = length l.
+Proof. intros H. apply mapM_Forall2 in H. induction H; simpl; auto. Qed.
+
+Lemma mapM_In {A B} (f : A -> res B) l r y :
+  mapM f l = Ok r -> In y r -> exists x, In x l /\ f x = Ok y.
+Proof.
+  intros H. apply mapM_Forall2 in H. induction H; simpl; intros Hin; [contradiction|].
+  destruct Hin as [->|Hin]; [eauto|]. destruct (IHForall2 Hin) as [x0 [? ?]]; eauto.
+Qed.
+
+(* mapM of a function that tags its result with a name computed from the input *)
+Lemma mapM_tag_fst {A} (g : A -> name) (h : A -> res val) l kv :
+  mapM (fun x => bind (h x) (fun v => Ok (g x, v))) l = Ok kv -> map fst kv = map g l.
+Proof.
+  revert kv; induction l as [|x l IH]; simpl; intros kv H.
+  - inversion H; reflexivity.
+  - inv_bind H as y Hy. inv_bind Hy as v Hv. inversion Hy; subst.
+    inv_bind H as ys Hys. inversion H; subst. simpl. f_equal. auto.
+Qed.
+
+Lemma list_N_eqb_eq : forall a b, list_N_eqb a b = true -> a = b.
+Proof.
+  induction a as [|x a IH]; destruct b as [|y b]; simpl; intros H; try discriminate; auto.
+  apply andb_true_iff in H. destruct H as [H1 H2]. apply N.eqb_eq in H1. f_equal; auto.
+Qed.
+Lemma name_eqb_eq : forall a b, name_eqb a b = true -> a = b.
+Proof. exact list_N_eqb_eq. Qed.
+
+Lemma map_fst_combine {A B} (a : list A) (b : list B) :
+  length a = length b -> map fst (combine a b) = a.
+Proof.
+  revert b; induction a as [|x a IH]; destruct b; simpl; intros H; try discriminate; auto.
+  f_equal. apply IH. lia.
+Qed.
+Lemma map_fst_combine_firstn {A B} (a : list A) (b : list B) :
+  map fst (combine a b) = firstn (length b) a.
+Proof.
+  revert b; induction a as [|x a IH]; destruct b; simpl; auto. f_equal. apply IH.
+Qed.
+Lemma map_snd_combine {A B} (a : list A) (b : list B) :
+  length a = length b -> map snd (combine a b) = b.
+Proof.
+  revert b; induction a as [|x a IH]; destruct b; simpl; intros H; try discriminate; auto.
+  f_equal. apply IH. lia.
+Qed.
+
+(* ---------- well-formedness ---------- *)
+Definition row_ok (ns : list name) (r : row) : Prop := fst r = ns /\ length (snd r) = length ns.
+Definition wf (f : frame) : Prop :=
+  snames f = columns f /\ Forall (row_ok (columns f)) (rows f).
+Definition wf_pre (p : pre) : Prop :=
+  p_names p = map pname (p_fields p) /\ Forall (row_ok (map pname (p_fields p))) (p_rows p).
+
+Lemma bind_fields_names : forall pfs c, map fname (fst (bind_fields c pfs)) = map pname pfs.
+Proof.
+  induction pfs as [|p pfs IH]; intros c; simpl; auto.
+  destruct p as [f|n].
+  - specialize (IH c). destruct (bind_fields c pfs) as [r c']. simpl in *. f_equal; auto.
+  - specialize (IH (c + 1)%N). destruct (bind_fields (c + 1) pfs) as [r c']. simpl in *. f_equal; auto.
+Qed.
+
+Lemma finish_wf : forall c p, wf_pre p -> wf (fst (finish c p)).
+Proof.
+  intros c p [Hn Hr]. unfold finish.
+  pose proof (bind_fields_names (p_fields p) c) as Hb.
+  destruct (bind_fields c (p_fields p)) as [fs c']. simpl in *.
+  unfold wf, columns; simpl. rewrite Hb. split; auto.
+Qed.
+
+Lemma row_of_pairs_ok : forall kv ns, map fst kv = ns -> row_ok ns (row_of_pairs kv).
+Proof.
+  intros kv ns H. unfold row_ok, row_of_pairs; simpl. split; auto.
+  rewrite <- H. now rewrite !map_length.
+Qed.
+
+Lemma same_schema_wf : forall f rs o v,
+  wf f -> Forall (row_ok (columns f)) rs -> wf_pre (same_schema f rs o v).
+Proof.
+  intros f rs o v [Hn _] Hr. unfold wf_pre, same_schema; simpl.
+  rewrite map_map. simpl. fold (columns f). unfold columns in *. split; auto.
+Qed.
+
+Lemma struct_of_wf : forall pfs rs o v,
+  Forall (row_ok (map pname pfs)) rs -> wf_pre (struct_of pfs rs o v).
+Proof. intros. unfold wf_pre, struct_of; simpl. auto. Qed.
+
+(* ---------- find_pos / first_named ---------- *)
+Lemma positions_nth : forall n fs i p,
+  In p (positions n fs i) -> exists fld, nth_error fs (p - i) = Some fld /\ fname fld = n /\ (i <= p)%nat.
+Proof.
+  induction fs as [|f fs IH]; simpl; intros i p H; [contradiction|].
+  destruct (name_eqb n (fname f)) eqn:E.
+  - destruct H as [<-|H].
+    + exists f. rewrite Nat.sub_diag. simpl. repeat split; auto. symmetry. now apply name_eqb_eq.
+    + destruct (IH _ _ H) as [fld [H1 [H2 H3]]]. exists fld.
+      replace (p - i)%nat with (S (p - S i)) by lia. simpl. repeat split; auto. lia.
+  - destruct (IH _ _ H) as [fld [H1 [H2 H3]]]. exists fld.
+    replace (p - i)%nat with (S (p - S i)) by lia. simpl. repeat split; auto. lia.
+Qed.
+
+Lemma find_pos_name : forall n fs p fld,
+  find_pos n fs = Ok p -> nth_error fs p = Some fld -> fname fld = n.
+Proof.
+  unfold find_pos. intros n fs p fld H Hn.
+  destruct (positions n fs 0) as [|q [|q' l]] eqn:E; try discriminate.
+  inversion H; subst q.
+  assert (Hin : In p (positions n fs 0)) by (rewrite E; simpl; auto).
+  destruct (positions_nth _ _ _ _ Hin) as [fld' [H1 [H2 _]]].
+  rewrite Nat.sub_0_r in H1. congruence.
+Qed.
+
+Lemma first_named_name : forall fs c fld, first_named fs c = Ok fld -> fname fld = c.
+Proof.
+  unfold first_named. intros fs c fld H.
+  destruct (find _ fs) eqn:E; [|discriminate]. inversion H; subst.
+  apply find_some in E. destruct E as [_ E]. now apply name_eqb_eq.
+Qed.
+Lemma first_named_names : forall fs on l, mapM (first_named fs) on = Ok l -> map fname l = on.
+Proof.
+  intros fs on l H. apply mapM_Forall2 in H. induction H; simpl; auto.
+  f_equal; auto. eapply first_named_name; eauto.
+Qed.
+
+(* ---------- count / collect ---------- *)
 Lemma rdd_count_acc : forall parts a,
   fold_left (fun a p => a + Z.of_nat (length p)) parts a = a + Z.of_nat (length (concat parts : list row)).
 Proof.
